@@ -1,10 +1,292 @@
 import EpModel.Driver.Util
-/- `set.*` and `spec.set.*` operations (stub; filled in by the owner of this family). -/
+import EpModel.Model.Setters
+/- `set.*` operations (C14): every length taking constructor / setter / checksum entry point.
+
+   Header states are passed as the serialised header (hex) and decoded with the C08 codec models'
+   `fromSlice` (the harness uses the crate's `from_slice`); payloads / option areas / addresses are
+   described by `len a b` = the byte string `i ↦ (a + i*b) mod 256`, `i < len`, so that long inputs
+   need no long lines.  Result lines:
+     constructors   ok(<to_bytes hex>) | err(..)
+     `&mut` setters <ok | err(..)>;hdr=<to_bytes of the header after the call>
+     checksums      ok(<u16>) | err(..)
+   `err(actual=..,max=..,vt=..)` is a `ValueTooBigError`, the other error enums are spelled out. -/
 namespace EpModel.Driver.Set
-open EpModel EpModel.Driver
+open EpModel EpModel.Driver EpModel.Setters
+
+def pat (len a b : Nat) : Bytes := (List.range len).map (fun i => u8 (a + i * b))
+
+def argLt (s : String) (bound : Nat) : Option Nat := do
+  let n ← argNat s
+  if n < bound then some n else none
+
+def argHexLen (s : String) (len : Nat) : Option Bytes := do
+  let b ← argHex s
+  if b.length = len then some b else none
+
+def argPat (l a b : String) : Option Bytes := do
+  let l ← argNat l; let a ← argLt a 256; let b ← argLt b 256
+  -- the harness refuses to allocate more than 1 MiB for a described byte string
+  if l ≤ 1048576 then some (pat l a b) else none
+
+def showTooBig (e : TooBig) : String :=
+  s!"err(actual={e.actual},max={e.maxAllowed},vt={e.vt.name})"
+
+def showRes {α : Type} (showErr : α → String) : Except α Unit → String
+  | .ok _ => "ok"
+  | .error e => showErr e
+
+def showCk : Except TooBig Nat → String
+  | .ok v => s!"ok({v})"
+  | .error e => showTooBig e
+
+/-! header states from their serialised form (nothing may be left over) -/
+
+def ipv4Of (s : String) : Option CodecNet.Ipv4Header := do
+  match CodecNet.Ipv4Header.fromSlice (← argHex s) with
+  | .ok (h, []) => some h
+  | _ => none
+
+def ipv6Of (s : String) : Option CodecNet.Ipv6Header := do
+  match CodecNet.Ipv6Header.fromSlice (← argHex s) with
+  | .ok (h, []) => some h
+  | _ => none
+
+def authOf (s : String) : Option CodecNet.IpAuthHeader := do
+  match CodecNet.IpAuthHeader.fromSlice (← argHex s) with
+  | .ok (h, []) => some h
+  | _ => none
+
+def rawExtOf (s : String) : Option CodecNet.Ipv6RawExtHeader := do
+  match CodecNet.Ipv6RawExtHeader.fromSlice (← argHex s) with
+  | .ok (h, []) => some h
+  | _ => none
+
+def fragOf (s : String) : Option CodecNet.Ipv6FragmentHeader := do
+  match CodecNet.Ipv6FragmentHeader.fromSlice (← argHex s) with
+  | .ok (h, []) => some h
+  | _ => none
+
+def udpOf (s : String) : Option Codec.Udp := do
+  match Codec.Udp.fromSlice (← argHex s) with
+  | .ok (h, []) => some h
+  | _ => none
+
+def tcpOf (s : String) : Option Codec.Tcp := do
+  match Codec.Tcp.fromSlice (← argHex s) with
+  | .ok (h, []) => some h
+  | _ => none
+
+def icmp6Of (s : String) : Option Codec.Icmp6 := do
+  match Codec.Icmp6.fromSlice (← argHex s) with
+  | .ok (h, []) => some h
+  | _ => none
+
+def macsecOf (s : String) : Option Codec.Macsec := do
+  match Codec.Macsec.fromSlice (← argHex s) with
+  | .ok (h, []) => some h
+  | _ => none
+
+def arpOf (s : String) : Option Codec.Arp := do
+  match Codec.Arp.fromSlice (← argHex s) with
+  | .ok (h, []) => some h
+  | _ => none
+
+/-- optional part: `-` = absent -/
+def optOf {α : Type} (f : String → Option α) (s : String) : Option (Option α) :=
+  if s == "-" then some none else (f s).map some
+
+def showIcvErr : CodecNet.IcvLenError → String
+  | .tooBig n => s!"err(TooBig({n}))"
+  | .unaligned n => s!"err(Unaligned({n}))"
+
+def showExtErr : CodecNet.ExtPayloadLenError → String
+  | .tooSmall n => s!"err(TooSmall({n}))"
+  | .tooBig n => s!"err(TooBig({n}))"
+  | .unaligned n => s!"err(Unaligned({n}))"
+
+def showArpAddrErr (which : String) : ArpAddrError → String
+  | .lenNonMatching a b => s!"err({which}(LenNonMatching({a},{b})))"
+  | .lenTooBig n => s!"err({which}(LenTooBig({n})))"
+
+def showOptNat : Option Nat → String
+  | none => "none"
+  | some v => s!"some({v})"
 
 def run (op : String) (args : List String) : Option String :=
   match op, args with
+  /- IPv4 -/
+  | "set.ipv4.new", [n, ttl, proto, src, dst] => do
+      let n ← argLt n 65536; let ttl ← argLt ttl 256; let proto ← argLt proto 256
+      let src ← argHexLen src 4; let dst ← argHexLen dst 4
+      match ipv4New n ttl proto src dst with
+      | .ok h => pure s!"ok({hexOfBytes h.toBytes})"
+      | .error e => pure (showTooBig e)
+  | "set.ipv4.set_payload_len", [hdr, n] => do
+      let h ← ipv4Of hdr; let n ← argLt n (usizeMax + 1)
+      let r := ipv4SetPayloadLen h n
+      pure s!"{showRes showTooBig r.1};max={ipv4MaxPayloadLen h};hdr={hexOfBytes r.2.toBytes}"
+  | "set.ipv4.set_options", [hdr, l, a, b] => do
+      let h ← ipv4Of hdr; let d ← argPat l a b
+      let r := ipv4SetOptions h d
+      pure s!"{showRes (fun n => s!"err(BadOptionsLen({n}))") r.1};hdr={hexOfBytes r.2.toBytes}"
+  | "set.ipv4opts.try_from", [l, a, b] => do
+      let d ← argPat l a b
+      match CodecNet.Ipv4Options.tryFrom d with
+      | .ok o => pure s!"ok(len={o.length},{hexOfBytes o})"
+      | .error n => pure s!"err(BadOptionsLen({n}))"
+  /- IPv6 -/
+  | "set.ipv6.set_payload_length", [hdr, n] => do
+      let h ← ipv6Of hdr; let n ← argLt n (usizeMax + 1)
+      let r := ipv6SetPayloadLength h n
+      pure s!"{showRes showTooBig r.1};hdr={hexOfBytes r.2.toBytes}"
+  /- IpHeaders -/
+  | "set.ip4.set_payload_len", [hdr, auth, n] => do
+      let h ← ipv4Of hdr; let a ← optOf authOf auth; let n ← argLt n (usizeMax + 1)
+      let e : CodecNet.Ipv4Extensions := { auth := a }
+      match ipHeadersSetPayloadLen (.v4 h e) n with
+      | (r, .v4 h' e') =>
+        pure s!"{showRes showTooBig r};hdr={hexOfBytes h'.toBytes};extlen={e'.headerLen}"
+      | _ => none
+  | "set.ip6.set_payload_len", [hdr, hbh, dst, rt, fdst, frag, auth, n] => do
+      let h ← ipv6Of hdr
+      let hbh ← optOf rawExtOf hbh; let dst ← optOf rawExtOf dst; let rt ← optOf rawExtOf rt
+      let fdst ← optOf rawExtOf fdst; let frag ← optOf fragOf frag; let auth ← optOf authOf auth
+      let n ← argLt n (usizeMax + 1)
+      let routing ← match rt, fdst with
+        | some r, f => some (some (r, f))
+        | none, none => some none
+        | none, some _ => none
+      let e : Ipv6Exts := { hopByHop := hbh, destOpts := dst, routing := routing, fragment := frag,
+                            auth := auth }
+      match ipHeadersSetPayloadLen (.v6 h e) n with
+      | (r, .v6 h' e') =>
+        pure s!"{showRes showTooBig r};hdr={hexOfBytes h'.toBytes};extlen={e'.headerLen}"
+      | _ => none
+  /- UDP -/
+  | "set.udp.without_ipv4_checksum", [sp, dp, n] => do
+      let sp ← argLt sp 65536; let dp ← argLt dp 65536; let n ← argLt n (usizeMax + 1)
+      match udpWithoutIpv4Checksum sp dp n with
+      | .ok h => pure s!"ok({hexOfBytes h.toBytes})"
+      | .error e => pure (showTooBig e)
+  | "set.udp.with_ipv4_checksum", [sp, dp, src, dst, l, a, b] => do
+      let sp ← argLt sp 65536; let dp ← argLt dp 65536
+      let src ← argHexLen src 4; let dst ← argHexLen dst 4; let p ← argPat l a b
+      match udpWithIpv4Checksum sp dp src dst p with
+      | .ok h => pure s!"ok({hexOfBytes h.toBytes})"
+      | .error e => pure (showTooBig e)
+  | "set.udp.with_ipv6_checksum", [sp, dp, src, dst, l, a, b] => do
+      let sp ← argLt sp 65536; let dp ← argLt dp 65536
+      let src ← argHexLen src 16; let dst ← argHexLen dst 16; let p ← argPat l a b
+      match udpWithIpv6Checksum sp dp src dst p with
+      | .ok h => pure s!"ok({hexOfBytes h.toBytes})"
+      | .error e => pure (showTooBig e)
+  | "set.udp.calc_checksum_ipv4", [hdr, src, dst, l, a, b] => do
+      let h ← udpOf hdr; let src ← argHexLen src 4; let dst ← argHexLen dst 4; let p ← argPat l a b
+      let r := showCk (udpCalcChecksumIpv4Raw h src dst p)
+      pure s!"raw={r},hdr={r}"
+  | "set.udp.calc_checksum_ipv6", [hdr, src, dst, l, a, b] => do
+      let h ← udpOf hdr; let src ← argHexLen src 16; let dst ← argHexLen dst 16; let p ← argPat l a b
+      let r := showCk (udpCalcChecksumIpv6Raw h src dst p)
+      pure s!"raw={r},hdr={r}"
+  /- TCP -/
+  | "set.tcp.calc_checksum_ipv4", [hdr, src, dst, l, a, b] => do
+      let h ← tcpOf hdr; let src ← argHexLen src 4; let dst ← argHexLen dst 4; let p ← argPat l a b
+      let r := showCk (tcpCalcChecksumIpv4Raw h src dst p)
+      pure s!"raw={r},hdr={r}"
+  | "set.tcp.calc_checksum_ipv6", [hdr, src, dst, l, a, b] => do
+      let h ← tcpOf hdr; let src ← argHexLen src 16; let dst ← argHexLen dst 16; let p ← argPat l a b
+      let r := showCk (tcpCalcChecksumIpv6Raw h src dst p)
+      pure s!"raw={r},hdr={r}"
+  | "set.tcpslice.calc_checksum_ipv4", [hdr, src, dst, l, a, b] => do
+      let hb ← argHex hdr; let _ ← tcpOf hdr
+      let src ← argHexLen src 4; let dst ← argHexLen dst 4; let p ← argPat l a b
+      pure (showCk (tcpSliceCalcChecksumIpv4 (hb ++ p) src dst))
+  | "set.tcpslice.calc_checksum_ipv6", [hdr, src, dst, l, a, b] => do
+      let hb ← argHex hdr; let _ ← tcpOf hdr
+      let src ← argHexLen src 16; let dst ← argHexLen dst 16; let p ← argPat l a b
+      pure (showCk (tcpSliceCalcChecksumIpv6 (hb ++ p) src dst))
+  | "set.tcp.set_options_raw", [hdr, l, a, b] => do
+      let h ← tcpOf hdr; let d ← argPat l a b
+      let r := tcpSetOptionsRaw h d
+      let res := match r.1 with
+        | .ok _ => "ok"
+        | .error (.other w) => s!"err({w})"
+        | .error e => e.render
+      pure s!"{res};hdr={hexOfBytes r.2.toBytes}"
+  | "set.tcpopts.try_from_slice", [l, a, b] => do
+      let d ← argPat l a b
+      match Codec.TcpOpts.tryFromSlice d with
+      | .ok o => pure s!"ok(len={o.len},{hexOfBytes o.asSlice})"
+      | .error (.other w) => pure s!"err({w})"
+      | .error e => pure e.render
+  /- ICMPv6 -/
+  | "set.icmp6.calc_checksum", [hdr, src, dst, l, a, b] => do
+      let h ← icmp6Of hdr; let src ← argHexLen src 16; let dst ← argHexLen dst 16; let p ← argPat l a b
+      pure (showCk (icmp6CalcChecksum h.ty src dst p))
+  | "set.icmp6.with_checksum", [hdr, src, dst, l, a, b] => do
+      let h ← icmp6Of hdr; let src ← argHexLen src 16; let dst ← argHexLen dst 16; let p ← argPat l a b
+      match icmp6WithChecksum h.ty src dst p with
+      | .ok h' => pure s!"ok({hexOfBytes h'.toBytes})"
+      | .error e => pure (showTooBig e)
+  | "set.icmp6.update_checksum", [hdr, src, dst, l, a, b] => do
+      let h ← icmp6Of hdr; let src ← argHexLen src 16; let dst ← argHexLen dst 16; let p ← argPat l a b
+      let r := icmp6UpdateChecksum h src dst p
+      pure s!"{showRes showTooBig r.1};hdr={hexOfBytes r.2.toBytes}"
+  /- MACsec -/
+  | "set.macsec.set_payload_len", [hdr, n] => do
+      let h ← macsecOf hdr; let n ← argLt n (usizeMax + 1)
+      let h' := macsecSetPayloadLen h n
+      pure s!"ok;hdr={hexOfBytes h'.toBytes};sl={h'.sl};exp={showOptNat (macsecExpectedPayloadLen h')}"
+  | "set.macsec.from_len", [n] => do
+      let n ← argLt n (usizeMax + 1)
+      pure (toString (macsecFromLen n))
+  | "set.macsec.try_from", [n] => do
+      let n ← argLt n 256
+      match macsecTryFromU8 n with
+      | .ok v => pure s!"ok({v})"
+      | .error e => pure (showTooBig e)
+  /- AH, raw extension header -/
+  | "set.auth.new", [nh, spi, seq, l, a, b] => do
+      let nh ← argLt nh 256; let spi ← argLt spi 4294967296; let seq ← argLt seq 4294967296
+      let d ← argPat l a b
+      match CodecNet.IpAuthHeader.new nh spi seq d with
+      | .ok h => pure s!"ok({hexOfBytes h.toBytes})"
+      | .error e => pure (showIcvErr e)
+  | "set.auth.set_raw_icv", [hdr, l, a, b] => do
+      let h ← authOf hdr; let d ← argPat l a b
+      let r := authSetRawIcv h d
+      pure s!"{showRes showIcvErr r.1};hdr={hexOfBytes r.2.toBytes}"
+  | "set.rawext.new_raw", [nh, l, a, b] => do
+      let nh ← argLt nh 256; let d ← argPat l a b
+      match CodecNet.Ipv6RawExtHeader.newRaw nh d with
+      | .ok h => pure s!"ok({hexOfBytes h.toBytes})"
+      | .error e => pure (showExtErr e)
+  | "set.rawext.set_payload", [hdr, l, a, b] => do
+      let h ← rawExtOf hdr; let d ← argPat l a b
+      let r := rawExtSetPayload h d
+      pure s!"{showRes showExtErr r.1};hdr={hexOfBytes r.2.toBytes}"
+  /- ARP -/
+  | "set.arp.new", [hw, proto, oper, l1, l2, l3, l4, a, b] => do
+      let hw ← argLt hw 65536; let proto ← argLt proto 65536; let oper ← argLt oper 65536
+      let a' ← argLt a 256
+      let shw ← argPat l1 a b; let sp ← argPat l2 (toString ((a' + 1) % 256)) b
+      let thw ← argPat l3 (toString ((a' + 2) % 256)) b; let tp ← argPat l4 (toString ((a' + 3) % 256)) b
+      match Codec.Arp.new hw proto oper shw sp thw tp with
+      | .ok h => pure s!"ok({hexOfBytes h.toBytes})"
+      | .error (.other w) =>
+        -- the codec model spells the error `arpnew(X)`; print the enum itself
+        pure s!"err({((w.drop 7).dropEnd 1).toString})"
+      | .error e => pure e.render
+  | "set.arp.set_hw_addrs", [hdr, l1, l2, a, b] => do
+      let h ← arpOf hdr; let a' ← argLt a 256
+      let s ← argPat l1 a b; let t ← argPat l2 (toString ((a' + 2) % 256)) b
+      let r := arpSetHwAddrs h s t
+      pure s!"{showRes (showArpAddrErr "HwAddr") r.1};hdr={hexOfBytes r.2.toBytes}"
+  | "set.arp.set_protocol_addrs", [hdr, l1, l2, a, b] => do
+      let h ← arpOf hdr; let a' ← argLt a 256
+      let s ← argPat l1 a b; let t ← argPat l2 (toString ((a' + 2) % 256)) b
+      let r := arpSetProtocolAddrs h s t
+      pure s!"{showRes (showArpAddrErr "ProtoAddr") r.1};hdr={hexOfBytes r.2.toBytes}"
   | _, _ => none
 
 end EpModel.Driver.Set
